@@ -1074,6 +1074,17 @@ func (dht *IpfsDHT) validRTPeer(p peer.ID) (bool, error)
 role routingTablePeerFilter(d any, p peer.ID) bool in (dht *IpfsDHT) validRTPeer(p peer.ID) (bool, error)
   pure
 
+# handing a peer to the routing-table loop never outlives the DHT: the send is
+# abandoned when the DHT's context ends (the loop that receives exits then - a
+# bare send would block the calling lookup worker for ever after Close)
+func (dht *IpfsDHT) validPeerFound(p peer.ID)
+  props C12 C14
+  ghostvar $gone bool = false
+  modifies nothing
+  ensures [queued-or-shutting-down] tagged("sent:dht.addPeerToRTChan") || tagged("recv:dht.ctx.Done()")
+  ghost at send(dht.addPeerToRTChan): assert($msg == p)
+  ghost at recv(dht.ctx.Done()): $gone = true
+
 func (dht *IpfsDHT) lookupCheck(ctx context.Context, p peer.ID) error
   props C12
   ghostvar $gerr error = nil
@@ -1121,6 +1132,15 @@ func handlePeerChangeEvent(dht *IpfsDHT, p peer.ID)
   ghost at call(validRTPeer): $valid = $ret0; $verr = $ret1
   ghost at before call(peerFound): assert($verr == nil && $valid && $arg0 == p)
   ghost at before call(peerStoppedDHT): assert($verr == nil && !$valid && $arg0 == p)
+  # every report is checked against the peerstore and, unless that check
+  # itself fails, ends in the add or the evict decision - whatever the current
+  # connectedness of the peer (membership does not depend on it)
+  ghostvar $checked bool = false
+  ghostvar $decided bool = false
+  ensures [every-report-is-decided] $checked && imp($verr == nil, $decided)
+  ghost at before call(validRTPeer): assert($arg0 == p); $checked = true
+  ghost at call(peerFound): $decided = true
+  ghost at call(peerStoppedDHT): $decided = true
 
 funclit 0 in (dht *IpfsDHT) rtPeerLoop()
   props C12
